@@ -3,7 +3,9 @@ from .. import vmfamily
 
 
 def clause(v, rec):
-    return v["c04"] + f":floor={v['floor']}:sev={rec['fick']['chk']['sev']}" if v["c04"] == "below-floor" else None
+    if v["c04"] == "below-floor":
+        return v["c04"] + f":floor={v['floor']}:sev={rec['fick']['chk']['sev']}"
+    return v["c04"] if v["c04"].startswith("below-floor") else None
 
 
 def design(ctx):
